@@ -4,7 +4,7 @@ CONSTANTS
   SpecRouteEscaped = FALSE
   MaxSegs = 4
   MaxPayload = 4
-  SegIds = {"docs", "swagger.json", "api", "ui", "specs", "api.json", "..", "empty", "my specs"}
+  SegIds = {"docs", "swagger.json", "api", "specs", "api.json", ".."}
   PayloadBytes = {97, 60, 62, 38, 34, 39, 43, 47, 92, 32}
 INVARIANTS RoutingHolds EscapingHolds
 CHECK_DEADLOCK FALSE
